@@ -67,6 +67,8 @@ def _same(ctx, what, r, e, sig=None, blocks=True):
     try:
         g = np.asarray(r.compute(scheduler="sync"))
     except Exception as ex:
+        if sig == "pad:stats:empty-axis:ValueError" and not (isinstance(ex, ValueError) and "zero-size array" in str(ex)):
+            sig = None
         ctx.fail(f"{what}: compute raised {type(ex).__name__}", sig=sig, observed=str(ex)[:200])
         return False
     if g.shape != e.shape or g.dtype != e.dtype or r.dtype != e.dtype:
@@ -308,6 +310,8 @@ def case_op(ctx, inp):
         e = np.pad(x, pw, mode=mode, **kw)
         if mode in REUSE and any(max(p) > (s - 1 if mode == "reflect" else s) for p, s in zip(pw, x.shape)):
             sig = f"pad:{mode}:width-exceeds-axis"
+        if mode in ("maximum", "minimum", "mean") and 0 in x.shape:
+            sig = "pad:stats:empty-axis:ValueError"
         try:
             r = da.pad(d, pw, mode=mode, **kw)
         except Exception as ex:
@@ -365,8 +369,10 @@ CASES = {"fn": case_fn, "concat": case_concat, "pad1d": case_pad1d, "roll1d": ca
 # generators
 # ---------------------------------------------------------------------------
 
-def _shape_chunks(rng, maxd=3, maxn=6, minn=1):
+def _shape_chunks(rng, maxd=3, maxn=6, minn=1, zeros=False):
     shape = [rng.randint(minn, maxn) for _ in range(rng.randint(1, maxd))]
+    if zeros and rng.random() < 0.08:  # an empty axis
+        shape[rng.randrange(len(shape))] = 0
     return [rand_comp(rng, s) for s in shape]
 
 
@@ -380,7 +386,7 @@ def _factor_targets(rng, shape):
             out[i:i + 2] = [out[i] * out[i + 1]]
         else:
             i = rng.randrange(len(out))
-            divs = [k for k in range(1, out[i] + 1) if out[i] % k == 0]
+            divs = [k for k in range(1, out[i] + 1) if out[i] % k == 0] or [1]
             k = rng.choice(divs)
             out[i:i + 1] = [k, out[i] // k]
     if rng.random() < 0.3:
@@ -396,7 +402,8 @@ def _gen_op(rng):
     op = rng.choice(["reshape", "reshape", "reshape", "transpose", "moveaxis", "swapaxes", "squeeze", "expand_dims",
                      "broadcast_to", "flip", "rot90", "take", "shuffle", "repeat", "tile", "pad", "pad", "pad",
                      "tril", "triu", "diff", "roll", "block"])
-    chunks = _shape_chunks(rng)
+    chunks = _shape_chunks(rng, zeros=op in ("transpose", "moveaxis", "swapaxes", "expand_dims", "flip", "repeat", "tile",
+                                               "pad", "diff", "roll", "tril", "triu", "reshape"))
     shape = [sum(c) for c in chunks]
     nd = len(shape)
     inp = {"op": op, "chunks": chunks}
